@@ -523,6 +523,50 @@ func (pc *pCtx) p7Lockset(s *pSite, wantRaces, wantOrder bool) {
 						}
 						relevant = true
 						common := s.handedOver(fn, ls, ls[ld], ls[ins])
+						if common {
+							// the reading and the delivery are one step under a lock: the stores the reading competes
+							// with must be part of such a step too (store - read the others - deliver), otherwise two
+							// stores slip in before either delivery and one combination is delivered twice, one never
+							for fn2 := range inCtxs {
+								ls2 := s.locksets(fn2, entryOf[fn2])
+								for _, b2 := range fn2.Blocks {
+									for _, i2 := range b2.Instrs {
+										c2, ok := i2.(*ssa.Call)
+										if !ok {
+											continue
+										}
+										f2 := c2.Common().StaticCallee()
+										if f2 == nil || len(c2.Common().Args) == 0 || !(strings.HasPrefix(f2.Name(), "Store") || strings.HasPrefix(f2.Name(), "Swap") || strings.HasPrefix(f2.Name(), "CompareAndSwap")) {
+											continue
+										}
+										if !(pkgPathOf(f2) == "sync/atomic" || (f2.Signature.Recv() != nil && isSyncType(f2.Signature.Recv().Type()))) {
+											continue
+										}
+										cur := s.root(c2.Common().Args[0])
+										for k := 0; k < 6; k++ {
+											u, isLoad := cur.(*ssa.UnOp)
+											if !isLoad || u.Op != token.MUL {
+												break
+											}
+											cur = s.root(u.X)
+										}
+										if cur != ssa.Value(atomicCell[ld]) {
+											continue
+										}
+										shared := false
+										for l := range ls[ld] {
+											if ls[ins][l] && ls2[i2][l] {
+												shared = true
+											}
+										}
+										if !shared {
+											ok2 = false
+											note = fmt.Sprintf("%s stores into %s (%s) outside the lock under which %s reads it and delivers the combination: two stores can precede either delivery", funcKey(fn2), cellName(atomicCell[ld]), pc.pos(i2.Pos()), funcKey(fn))
+										}
+									}
+								}
+							}
+						}
 						if !common {
 							ok2 = false
 							note = fmt.Sprintf("%s reads %s atomically (%s) and delivers what it read with no lock held since the reading (%s); the function runs in %d concurrent contexts, so a newer reading can reach the downstream first", funcKey(fn), cellName(atomicCell[ld]), pc.pos(ld.Pos()), pc.pos(ins.Pos()), len(inCtxs[fn]))
